@@ -234,6 +234,10 @@ func (b netBackend) Listen(network, address string) (net.Listener, error) {
 		if err != nil {
 			return nil, &net.OpError{Op: "listen", Net: network, Err: err}
 		}
+		// 203.0.113.0/24 (TEST-NET-3) stands for "not an address of this host"
+		if ip4 := ta.IP.To4(); ip4 != nil && ip4[0] == 203 && ip4[1] == 0 && ip4[2] == 113 {
+			return nil, &net.OpError{Op: "listen", Net: network, Addr: ta, Err: os.NewSyscallError("bind", syscall.EADDRNOTAVAIL)}
+		}
 		if ta.Port == 0 {
 			n.mu.Lock()
 			n.nextPort++
